@@ -257,14 +257,21 @@ func (c *tunnelChannel) Invoke(ctx context.Context, methodName string, req, resp
 		// returned without consuming the request), its status is the outcome
 		// of the call, not the failure to send the rest of the request.
 		doneErr := str.loadDone()
-		if doneErr == nil {
-			return err
-		}
-		if doneErr != io.EOF {
+		if doneErr == nil || doneErr != io.EOF {
+			// The RPC is over. Make sure the stream is completely finished
+			// before returning, so that the targets of grpc.Header/grpc.Trailer
+			// call options are settled when the caller reads them.
+			str.cancel()
+			<-str.doneSignal
+			if doneErr == nil {
+				return err
+			}
 			return doneErr
 		}
 		// finished successfully: go on and read the response
 	} else if err := str.CloseSend(); err != nil && str.loadDone() != io.EOF {
+		str.cancel()
+		<-str.doneSignal
 		return err
 	}
 	err = str.RecvMsg(resp)
